@@ -3,6 +3,7 @@ package c17
 import (
 	"fmt"
 	"os"
+	"path/filepath"
 	"sort"
 	"strings"
 	"testing"
@@ -38,6 +39,43 @@ func staticChecks() []func() (StaticCase, ev.Verdict) {
 	names := platform.GetPlatformNames()
 
 	add("embedded-files-readable", "assets", func() error { return ferr })
+
+	// "loads from the embedded definitions": also when the working directory holds a file of that name
+	for _, n := range names {
+		n := n
+		add("embedded-wins-over-file-in-cwd", n, func() error {
+			dir, err := os.MkdirTemp("", "verif-c17-")
+			if err != nil {
+				return nil // infrastructure, not the library
+			}
+
+			defer os.RemoveAll(dir)
+
+			bogus := "---\nplatform-type: 'verif_bogus'\ndefault:\n  driver-type: 'generic'\n  failed-when-contains:\n    - 'verif bogus definition'\n"
+			_ = os.WriteFile(filepath.Join(dir, n), []byte(bogus), 0o600)
+			_ = os.WriteFile(filepath.Join(dir, n+".yaml"), []byte(bogus), 0o600)
+
+			wd, err := os.Getwd()
+			if err != nil || os.Chdir(dir) != nil {
+				return nil
+			}
+
+			defer func() { _ = os.Chdir(wd) }()
+
+			pipe := sim.NewPipe(&sim.CLI{Prompt: func() string { return "x>" }})
+
+			p, err := platform.NewPlatform(n, "sim", options.WithCustomTransport(pipe))
+			if err != nil {
+				return fmt.Errorf("does not load with a file of that name in the working directory: %w", err)
+			}
+
+			if p.GetPlatformType() != n {
+				return fmt.Errorf("a file in the working directory was loaded instead of the embedded definition (platform-type %q)", p.GetPlatformType())
+			}
+
+			return nil
+		})
+	}
 
 	// name <-> file bijection
 	for _, n := range names {
